@@ -221,6 +221,10 @@ STRUCT = ["template", "absent", "empty_line_before", "code_before", "include_bef
 # pattern): a line removed, a frame line of the wrong width, a By / Created / Updated line blanked, two lines swapped
 STRUCT += ["rm_line_%d" % k for k in range(1, 12)] + ["frame_top_73", "frame_top_75", "frame_bottom_73", "frame_bottom_75",
                                                         "by_blank", "created_blank", "updated_blank", "by_lowercase", "swap_8_9", "swap_1_2"]
+# comments of other kinds directly below the header (no empty line): a valid header stays valid (0), a mutated one is
+# reported exactly once
+STRUCT += ["line_comment_after_header", "indented_comment_after_header", "rm_line_5_then_line_comment", "frame_top_73_then_line_comment",
+           "by_blank_then_indented_comment", "plain_block_then_line_comment", "rm_line_11_then_two_line_comments"]
 STRUCT_KNOWN_ACCEPTED = ()
 INSTANCES = [("main.c", "jdoe", "jdoe@student.42.fr", "2018/03/29 13:47:14", "2018/05/02 21:16:08"),
              ("a.h", "x", "x@y", "1970/01/01 00:00:00", "2099/12/31 23:59:59"),
@@ -264,6 +268,18 @@ def struct_text(kind, inst):
         return H + "\n" + BODY, 0
     if kind == "space_before_first_line":
         return " " + H + BODY, 1
+    if kind == "line_comment_after_header":
+        return H + "// about\n" + BODY, 0
+    if kind == "indented_comment_after_header":
+        return H + "\t/* about */\n" + BODY, 0
+    if kind == "plain_block_then_line_comment":
+        return "/* just a comment */\n// more\n" + BODY, 1
+    if "_then_" in kind:
+        base, tail = kind.split("_then_")
+        t, _ = struct_text(base, inst)
+        t = t[:len(t) - len(BODY)]
+        extra = {"line_comment": "// about\n", "indented_comment": "\t/* about */\n", "two_line_comments": "// one\n// two\n"}[tail]
+        return t + extra + BODY, 1
     if kind.startswith("rm_line_"):
         k = int(kind.split("_")[-1])
         return "\n".join(h[:k - 1] + h[k:]) + "\n" + BODY, 1
